@@ -92,6 +92,10 @@ public:
         }
 
         // qos == qos_e::exactly_once
+        // a PUBLISH (re)starts the exchange: an operation that still waits
+        // for the PUBREL of an earlier attempt must not answer this one
+        _svc_ptr->cancel_pending_pubrel(*packet_id);
+
         auto pubrec = control_packet<allocator_type>::of(
             with_pid, get_allocator(),
             encoders::encode_pubrec, *packet_id,
